@@ -497,10 +497,29 @@ class _StructureGuards(ast.NodeTransformer):
         return node
     visit_While = visit_For
 
+    def _nest_value_returns(self, body):
+        """`if c: ...; return X` followed by REST  ->  `if c: ...; return X else: REST` (any statement list)"""
+        out = []
+        for i, s in enumerate(body):
+            if isinstance(s, ast.If) and not s.orelse and s.body and isinstance(s.body[-1], ast.Return) and s.body[-1].value is not None \
+                    and i + 1 < len(body):
+                s.orelse = self._nest_value_returns(body[i + 1:])
+                out.append(s)
+                return out
+            out.append(s)
+        return out
+
+    def visit_If(self, node):
+        self.generic_visit(node)
+        node.body = self._nest_value_returns(node.body)
+        node.orelse = self._nest_value_returns(node.orelse)
+        return node
+
     def visit_FunctionDef(self, node):
         self.generic_visit(node)
         if not any(isinstance(x, (ast.Yield, ast.YieldFrom)) for x in ast.walk(node)):
             node.body = self._trim(self._nest(node.body, ast.Return), ast.Return) or [ast.copy_location(ast.Pass(), node)]
+            node.body = self._nest_value_returns(node.body)
         return node
 
 
@@ -715,6 +734,58 @@ def literal_forms(tree: ast.AST) -> ast.AST:
     return ast.fix_missing_locations(_Literals().visit(tree))
 
 
+def _dotted(e: ast.AST) -> bool:
+    if isinstance(e, ast.Name):
+        return e.id not in ("self", "cls")
+    return isinstance(e, ast.Attribute) and _dotted(e.value)
+
+
+class _FunctionAliases(ast.NodeTransformer):
+    """`_f = np.dot` ... `_f(x)`  ->  `np.dot(x)`: a local bound exactly once to a dotted name (module function or
+    global, not rooted at self) and only ever *called* is replaced by that name."""
+    def visit_FunctionDef(self, node):
+        self.generic_visit(node)
+        stores: Dict[str, int] = {}
+        cand: Dict[str, ast.Assign] = {}
+        for x in ast.walk(node):
+            if isinstance(x, ast.Name) and isinstance(x.ctx, (ast.Store, ast.Del)):
+                stores[x.id] = stores.get(x.id, 0) + 1
+        for x in node.body:
+            if isinstance(x, ast.Assign) and len(x.targets) == 1 and isinstance(x.targets[0], ast.Name) and _dotted(x.value):
+                cand[x.targets[0].id] = x
+        params = {a.arg for a in node.args.posonlyargs + node.args.args + node.args.kwonlyargs}
+        ok = {}
+        for nm, st in cand.items():
+            if stores.get(nm) != 1 or nm in params:
+                continue
+            root = st.value
+            while isinstance(root, ast.Attribute):
+                root = root.value
+            if stores.get(root.id, 0) or root.id in params:
+                continue            # the aliased name is itself a local
+            loads = [x for x in ast.walk(node) if isinstance(x, ast.Name) and x.id == nm and isinstance(x.ctx, ast.Load)]
+            called = [c.func for c in ast.walk(node) if isinstance(c, ast.Call) and isinstance(c.func, ast.Name) and c.func.id == nm]
+            if loads and len(loads) == len(called):
+                ok[nm] = st
+        if not ok:
+            return node
+        import copy as _c
+
+        class R(ast.NodeTransformer):
+            def visit_Name(self, n):
+                if n.id in ok and isinstance(n.ctx, ast.Load):
+                    return ast.copy_location(_c.deepcopy(ok[n.id].value), n)
+                return n
+        node = R().visit(node)
+        node.body = [s for s in node.body if s not in ok.values()] or [ast.Pass()]
+        return node
+    visit_AsyncFunctionDef = visit_FunctionDef
+
+
+def function_aliases(tree: ast.AST) -> ast.AST:
+    return ast.fix_missing_locations(_FunctionAliases().visit(tree))
+
+
 class AnalysisError(Exception):
     """Anchor vanished / unparsable file / floor not met: exit 2, never a pass."""
 
@@ -873,7 +944,7 @@ class Repo:
         from .inline import inline_new_helpers, known_functions, undo_renames
         self.renamed = undo_renames({mod: v[3] for mod, v in raw.items()})
         for mod, (path, rel, src, tree) in raw.items():
-            tree = literal_forms(numpy_idioms(strip_inert(tree)))
+            tree = literal_forms(numpy_idioms(function_aliases(strip_inert(tree))))
             tree, inl, skipped = inline_new_helpers(tree, mod, known_functions())
             if inl:
                 self.inlined[mod] = sorted(set(inl))
